@@ -90,7 +90,8 @@ TypeFits(k, rep) ==
 
 SingleRep(c, i, r, a) ==
   LET s == r.slots[1] IN
-  CASE a.kind = "err" -> Rep("err", <<[c |-> c, i |-> i, j |-> 0, s |-> s, n |-> "", v |-> "err"]>>, 0, a.cls)
+  CASE a.kind = "err" /\ a.num = -1 -> Rep("err", <<>>, 0, a.cls)       \* (an error line that does not name the key)
+    [] a.kind = "err" -> Rep("err", <<[c |-> c, i |-> i, j |-> 0, s |-> s, n |-> "", v |-> "err"]>>, 0, a.cls)
     [] r.k = "set"    -> Rep("ok", <<>>, 0, "")
     [] a.kind = "nil" -> Rep("nil", <<>>, 0, "")
     [] a.kind = "empty" -> Rep("empty", <<>>, 0, "")
